@@ -140,8 +140,8 @@ func raftTrial(out *childOut, r *Rng, t int, thorough bool) {
 	c.viol = func(p, s, w string) { out.Violate(p, s, w) }
 	seenMsg := map[string]bool{}
 	c.msgObs = func(from *rsNode, m *raftpb.Message) {
-		hs, err1 := from.w.HardState()
-		last, err2 := from.w.LastIndex()
+		hs, err1 := from.w.peekHardState()
+		last, err2 := from.w.inner.LastIndex()
 		if err1 != nil || err2 != nil {
 			return
 		}
@@ -216,8 +216,8 @@ func raftTrial(out *childOut, r *Rng, t int, thorough bool) {
 		if old == nil || !old.ctl.isDead() {
 			return
 		}
-		hs, _ := old.w.HardState()
-		ct, cterr := old.w.Term(hs.Commit)
+		hs, _ := old.w.peekHardState()
+		ct, cterr := old.w.inner.Term(hs.Commit)
 		old.stopIncarnation()
 		reopenMustAgree(out, raftAs, id, old, c.gid)
 		n, err := c.start(id, peers, old.addr)
@@ -236,7 +236,7 @@ func raftTrial(out *childOut, r *Rng, t int, thorough bool) {
 			out.Violate("C05", "C05/restart-forgets-vote", fmt.Sprintf("node %d had durably voted for %d in term %d and resumed with vote %d", id, hs.Vote, hs.Term, st.Vote))
 		}
 		if cterr == nil {
-			if ct2, err := n.w.Term(hs.Commit); err == nil && ct2 != ct {
+			if ct2, err := n.w.inner.Term(hs.Commit); err == nil && ct2 != ct {
 				out.Violate("C05", "C05/restart-forks-committed", fmt.Sprintf("node %d: committed index %d had term %d before the crash and %d after the restart", id, hs.Commit, ct, ct2))
 			}
 		}
@@ -383,11 +383,11 @@ func raftTrial(out *childOut, r *Rng, t int, thorough bool) {
 		var st []string
 		for _, n := range c.live() {
 			s := n.g.VerifStatus()
-			hs, _ := n.w.HardState()
-			li, _ := n.w.LastIndex()
-			fi, _ := n.w.FirstIndex()
-			lt, _ := n.w.Term(li)
-			sn, _ := n.w.Snapshot()
+			hs, _ := n.w.peekHardState()
+			li, _ := n.w.inner.LastIndex()
+			fi, _ := n.w.inner.FirstIndex()
+			lt, _ := n.w.inner.Term(li)
+			sn, _ := n.w.inner.Snapshot()
 			st = append(st, fmt.Sprintf("node %d: term %d vote %d lead %d commit %d state %s applied %d entries; store: term %d vote %d commit %d first %d last %d lastTerm %d snapshot@%d conf %v", n.id, s.Term, s.Vote, s.Lead, s.Commit, s.RaftState, len(n.appliedCopy()), hs.Term, hs.Vote, hs.Commit, fi, li, lt, sn.Metadata.Index, sn.Metadata.ConfState.Nodes))
 		}
 		out.Violate("C05", "C05/no-convergence", fmt.Sprintf("40 s after all faults stopped and all replicas were restarted the group of %d has not converged: %s", N, strings.Join(st, "; ")))
@@ -438,7 +438,7 @@ func raftCorpusVoteBeforeAppend(out *childOut) {
 	data, _ := vote.Marshal()
 	n.tr.Receive(context.Background(), &pb.RaftMessage{GroupId: c.gid.Bytes(), Message: data})
 	ok := waitFor(3*time.Second, func() bool {
-		hs, _ := n.w.HardState()
+		hs, _ := n.w.peekHardState()
 		return hs.Term == 5 && hs.Vote == 2
 	})
 	out.Local("joiner 1 receives MsgVote(term 5) from 2; vote durable: %v", ok)
@@ -455,7 +455,7 @@ func raftCorpusVoteBeforeAppend(out *childOut) {
 	}
 	time.Sleep(50 * time.Millisecond)
 	st := n2.g.VerifStatus()
-	li, _ := n2.w.LastIndex()
+	li, _ := n2.w.inner.LastIndex()
 	out.Local("reloaded with peers [1 2 3]: term %d vote %d last index %d", st.Term, st.Vote, li)
 	if st.Term < 5 || st.Vote != 2 {
 		out.Violate("C05", "C05/restart-older-than-durable", fmt.Sprintf("a replica whose log store held only the hard state (term 5, vote 2) was reloaded with its group's member list and resumed at term %d, vote %d, last index %d: it re-bootstrapped", st.Term, st.Vote, li))
@@ -475,8 +475,8 @@ func raftCorpusTwoCandidatesOneTerm(out *childOut) {
 	c.viol = func(p, s, w string) { out.Violate(p, s, w) }
 	var grants []string
 	c.msgObs = func(from *rsNode, m *raftpb.Message) {
-		hs, _ := from.w.HardState()
-		last, _ := from.w.LastIndex()
+		hs, _ := from.w.peekHardState()
+		last, _ := from.w.inner.LastIndex()
 		if m.Type == raftpb.MsgVoteResp {
 			grants = append(grants, fmt.Sprintf("to %d reject=%v at store term=%d vote=%d", m.To, m.Reject, hs.Term, hs.Vote))
 		}
@@ -498,20 +498,20 @@ func raftCorpusTwoCandidatesOneTerm(out *childOut) {
 		return
 	}
 	// the bootstrap entries (three membership changes) reach the store
-	waitFor(3*time.Second, func() bool { li, _ := n.w.LastIndex(); return li >= 3 })
+	waitFor(3*time.Second, func() bool { li, _ := n.w.inner.LastIndex(); return li >= 3 })
 	send := func(m raftpb.Message) {
 		data, _ := m.Marshal()
 		n.tr.Receive(context.Background(), &pb.RaftMessage{GroupId: c.gid.Bytes(), Message: data})
 	}
 	send(raftpb.Message{Type: raftpb.MsgVote, From: 2, To: 1, Term: 7, Index: 0, LogTerm: 0}) // behind: rejected, term adopted
-	waitFor(3*time.Second, func() bool { hs, _ := n.w.HardState(); return hs.Term == 7 })
-	li, _ := n.w.LastIndex()
-	lt, _ := n.w.Term(li)
+	waitFor(3*time.Second, func() bool { hs, _ := n.w.peekHardState(); return hs.Term == 7 })
+	li, _ := n.w.inner.LastIndex()
+	lt, _ := n.w.inner.Term(li)
 	send(raftpb.Message{Type: raftpb.MsgVote, From: 3, To: 1, Term: 7, Index: li, LogTerm: lt}) // up to date: granted
 	ok := waitFor(3*time.Second, func() bool { return len(grants) >= 2 })
 	time.Sleep(50 * time.Millisecond)
 	out.Local("vote responses: %v", grants)
-	hs, _ := n.w.HardState()
+	hs, _ := n.w.peekHardState()
 	if ok && (hs.Term != 7 || hs.Vote != 3) {
 		out.Violate("C05", "C05/vote-not-durable", fmt.Sprintf("the replica granted its vote to 3 in term 7; its log store holds term %d, vote %d", hs.Term, hs.Vote))
 	}
@@ -542,8 +542,8 @@ func raftCorpusDeposedLeaderLearnsByAppend(out *childOut) {
 	var mu sync.Mutex
 	var acks []string
 	c.msgObs = func(from *rsNode, m *raftpb.Message) {
-		hs, err1 := from.w.HardState()
-		last, err2 := from.w.LastIndex()
+		hs, err1 := from.w.peekHardState()
+		last, err2 := from.w.inner.LastIndex()
 		if err1 != nil || err2 != nil {
 			return
 		}
@@ -581,19 +581,19 @@ func raftCorpusDeposedLeaderLearnsByAppend(out *childOut) {
 		out.Violate(raftAs, raftAs+"/start-fails", err.Error())
 		return
 	}
-	waitFor(3*time.Second, func() bool { li, _ := n.w.LastIndex(); return li >= 3 })
+	waitFor(3*time.Second, func() bool { li, _ := n.w.inner.LastIndex(); return li >= 3 })
 	send := func(m raftpb.Message) {
 		data, _ := m.Marshal()
 		n.tr.Receive(context.Background(), &pb.RaftMessage{GroupId: c.gid.Bytes(), Message: data})
 	}
 	// node 1 campaigns; node 2 grants: node 1 leads term T
 	n.g.VerifCampaign()
-	if !waitFor(3*time.Second, func() bool { hs, _ := n.w.HardState(); return hs.Term >= 1 && hs.Vote == 1 }) {
+	if !waitFor(3*time.Second, func() bool { hs, _ := n.w.peekHardState(); return hs.Term >= 1 && hs.Vote == 1 }) {
 		out.Local("the replica did not campaign")
 		c.teardown()
 		return
 	}
-	hs, _ := n.w.HardState()
+	hs, _ := n.w.peekHardState()
 	T := hs.Term
 	send(raftpb.Message{Type: raftpb.MsgVoteResp, From: 2, To: 1, Term: T})
 	if !waitFor(3*time.Second, func() bool { return n.g.VerifStatus().Lead == 1 }) {
@@ -602,10 +602,10 @@ func raftCorpusDeposedLeaderLearnsByAppend(out *childOut) {
 		return
 	}
 	// its own empty entry of term T reaches the store
-	waitFor(2*time.Second, func() bool { li, _ := n.w.LastIndex(); return li >= 4 })
-	li, _ := n.w.LastIndex()
+	waitFor(2*time.Second, func() bool { li, _ := n.w.inner.LastIndex(); return li >= 4 })
+	li, _ := n.w.inner.LastIndex()
 	prev := li - 1
-	pt, _ := n.w.Term(prev)
+	pt, _ := n.w.inner.Term(prev)
 	// the leader of term T takes a few proposals it will never commit: an uncommitted tail that the
 	// successor's append cuts off
 	for i := 0; i < 5; i++ {
@@ -613,8 +613,8 @@ func raftCorpusDeposedLeaderLearnsByAppend(out *childOut) {
 		n.g.Propose(ctx, []byte(fmt.Sprintf("tail-%d", i)))
 		cancel()
 	}
-	waitFor(2*time.Second, func() bool { l2, _ := n.w.LastIndex(); return l2 >= li+5 })
-	tailLast, _ := n.w.LastIndex()
+	waitFor(2*time.Second, func() bool { l2, _ := n.w.inner.LastIndex(); return l2 >= li+5 })
+	tailLast, _ := n.w.inner.LastIndex()
 	out.Local("node 1 leads term %d with last index %d (uncommitted tail up to %d); node 2, leader of term %d, appends at index %d", T, li, tailLast, T+1, prev+1)
 	send(raftpb.Message{Type: raftpb.MsgApp, From: 2, To: 1, Term: T + 1, Index: prev, LogTerm: pt, Commit: prev,
 		Entries: []raftpb.Entry{{Term: T + 1, Index: prev + 1, Type: raftpb.EntryNormal}}})
@@ -627,7 +627,7 @@ func raftCorpusDeposedLeaderLearnsByAppend(out *childOut) {
 		out.Nontrivial("deposed-leader-learns-by-append")
 		// the deposed leader's log now ends at the successor's entry; it crashes and restarts before its log
 		// grows again: the restarted replica must resume from that log, not from the tail it was told to drop
-		if l3, _ := n.w.LastIndex(); l3 == prev+1 {
+		if l3, _ := n.w.inner.LastIndex(); l3 == prev+1 {
 			n.ctl.kill()
 			n.stopIncarnation()
 			reopenMustAgree(out, raftAs, 1, n, c.gid)
